@@ -45,6 +45,17 @@ def eval_case(case):
         df = O.dump_diff(d1, tr3[-1]["dump"])
         if df:
             out.append(O.V("calling simulate() again on a simulated project gives a different result", "C09/rerun", df[:3]))
+        # (iii) a default-argument simulate() on the object that has just been simulated with explicit
+        # options (absence list, auto-task flag, rule) must equal a default-argument simulate() on a fresh object
+        if case["ops"][0].get("abs") or case["ops"][0].get("auto_abs") or case.get("defaults_probe"):
+            dflt = [{"op": "simulate_default", "max_time": 40}]
+            bD, trD = sim.run_ops(case, want_snaps=False, ops=dflt, built=b1)
+            bF, trF = sim.run_ops(case, want_snaps=False, ops=dflt)
+            if trD[0]["exc"] is None and trF[0]["exc"] is None:
+                df = O.dump_diff(trD[0]["dump"], trF[0]["dump"])
+                if df:
+                    out.append(O.V("a default-argument simulate() after a run with explicit options differs from the same call on a fresh project",
+                                   "C09/options-survive", df[:3]))
     # (iv) hidden state outside the object: default-argument call, log edit, default-argument call on a new object
     if case.get("defaults_probe"):
         ops = [{"op": "simulate_default", "max_time": 40}]
